@@ -1571,7 +1571,24 @@ pub fn gen_case(r: &mut Rng, thorough: bool) -> Case {
     } else {
         // many coordinates
         let nmax = if thorough { 400 } else { 120 };
-        match r.below(4) {
+        match r.below(6) {
+            // a polygon whose shell or hole is a ring of realistic length (a count just beyond a power of two, or 130-700
+            // coordinates; a star, or a rectangle with a vertex at every lattice step), and a long simple line string
+            4 => {
+                let n = crate::gen::long_count(r);
+                let ring = crate::gen::long_ring(r, n);
+                let (x0, x1) = (ring.iter().map(|p| p.0).min().unwrap(), ring.iter().map(|p| p.0).max().unwrap());
+                let (y0, y1) = (ring.iter().map(|p| p.1).min().unwrap(), ring.iter().map(|p| p.1).max().unwrap());
+                if r.chance(1, 2) {
+                    IG::Polygon(vec![ring])
+                } else {
+                    IG::Polygon(vec![vec![(x0 - 3, y0 - 3), (x1 + 3, y0 - 3), (x1 + 3, y1 + 3), (x0 - 3, y1 + 3), (x0 - 3, y0 - 3)], ring])
+                }
+            }
+            5 => {
+                let n = crate::gen::long_count(r) as i64;
+                IG::LineString((0..n).map(|i| (i, if i % 2 == 0 { 0 } else { r.range(1, 3) })).collect())
+            }
             0 => IG::LineString((0..r.range(20, nmax)).map(|_| rp(r, 60)).collect()),
             1 => IG::MultiPoint((0..r.range(20, nmax)).map(|_| rp(r, 60)).collect()),
             2 => match fast_polygon(r, 40, 24) {
